@@ -34,6 +34,11 @@ pub struct ThCfg {
     /// (after the header), so that reads come back short although more data follows
     #[serde(default)]
     pub via_file: u8,
+    /// 0: a header as servers write it; otherwise one header field carries an unusual but well-formed-JSON
+    /// value (non-ASCII text of the expected byte length, wrong lengths, non-numbers, escapes, extra keys):
+    /// the stream then counts as damaged (values or errors, no panic, same outcome under every fragmentation)
+    #[serde(default)]
+    pub odd_header: u8,
 }
 
 #[derive(Clone, Debug, Serialize, Deserialize, PartialEq)]
@@ -146,7 +151,29 @@ fn build_stream(cfg: &ThCfg, ops: &[ThOp]) -> Built {
         json.push_str("\"start_time\":\"2017-10-03 16:56:42 +0200\",");
     }
     json.push_str(&format!("\"server_port\":\"{}\",\"map_name\":\"m{}\",\"map_size\":\"{}\",\"map_crc\":\"{:08x}\",", r.below(65536), r.below(1000), r.below(1 << 24), r.next_u64() as u32));
-    if r.chance(1, 2) {
+    if cfg.odd_header != 0 {
+        // (drawn from a separate stream so that the rest of the header does not depend on it)
+        let mut o = Prng::new(mix(cfg.seed, 0x6f646468, cfg.odd_header as u64));
+        let sha: String = match cfg.odd_header % 8 {
+            0 => "\u{e9}".repeat(32),                                  // 64 bytes, 2-byte characters
+            1 => format!("a{}b", "\u{e9}".repeat(31)),                 // 64 bytes, characters at odd offsets
+            2 => "\u{20ac}".repeat(21) + "a",                          // 64 bytes, 3-byte characters
+            3 => "\u{1f600}".repeat(16),                               // 64 bytes, 4-byte characters
+            4 => "0".repeat(63),
+            5 => "0".repeat(65),
+            6 => "G".repeat(64),
+            _ => "ABCDEF0123456789".repeat(4),
+        };
+        json.push_str(&format!("\"map_sha256\":\"{}\",", sha));
+        match o.below(6) {
+            0 => json.push_str("\"map_crc\":\"\u{e9}\u{e9}\u{e9}\u{e9}\","),
+            1 => json.push_str("\"extra\":{\"nested\":[1,2,{\"x\":null}]},"),
+            2 => json.push_str("\"server_port\":\"\u{ff11}\u{ff12}\","),
+            3 => json.push_str("\"map_size\":\"99999999999999999999999\","),
+            4 => json.push_str("\"comment\":\"line\\nbreak \\u00e9 \\\" quote\","),
+            _ => {}
+        }
+    } else if r.chance(1, 2) {
         json.push_str("\"map_sha256\":\"");
         for _ in 0..32 {
             json.push_str(&format!("{:02x}", r.below(256)));
@@ -661,6 +688,7 @@ impl Engine for ThEngine {
             damage_val: *c.pick(&[0u8, 0xff, 0x7f, 0x80, 0x40, 0x3f, 1]),
             reuse_buffer: c.chance(1, 3),
             via_file: if c.chance(1, 5) { 1 + c.below(2) as u8 } else { 0 },
+            odd_header: if c.chance(1, 12) { 1 + c.below(200) as u8 } else { 0 },
         };
         let n = match c.below(10) {
             0..=3 => c.range(1, 30),
@@ -721,7 +749,10 @@ impl Engine for ThEngine {
         ctx.ops_executed += case.ops.len() as u64;
         let built = build_stream(cfg, &case.ops);
         let mut bytes = built.bytes.clone();
-        let damaged = match cfg.damage {
+        if cfg.odd_header != 0 {
+            ctx.count("fault_odd_header_field");
+        }
+        let damaged_bytes = match cfg.damage {
             1 => {
                 let at = cfg.damage_at as usize % (bytes.len() + 1);
                 bytes.truncate(at);
@@ -746,6 +777,7 @@ impl Engine for ThEngine {
             }
             _ => false,
         };
+        let damaged = damaged_bytes || cfg.odd_header != 0;
         ctx.logf(|| format!("stream: {} bytes, {} messages expected, finish={}, damage={}", bytes.len(), built.expect.len(), built.finished, cfg.damage));
         // reference: everything available is returned by each read
         let mut rcb = Self::cb(cfg, &bytes, true);
@@ -894,7 +926,7 @@ impl Engine for ThEngine {
             real: vec!["teehistorian::raw::Reader", "teehistorian::raw::Buffer", "teehistorian::format (header, item decoders)", "packer", "buffer"],
             stub: vec!["the file (simulated stream behind the read callback)"],
             required_probes: vec!["probe_valid_stream_checked", "probe_stream_over_one_buffer", "probe_pieces"],
-            fault_kinds: vec!["fault_short_read_from_stream_file", "fault_fragmentation", "fault_zero_length_read", "fault_torn_tail", "fault_bit_flip", "fault_byte_overwrite", "fault_read_error"],
+            fault_kinds: vec!["fault_odd_header_field", "fault_short_read_from_stream_file", "fault_fragmentation", "fault_zero_length_read", "fault_torn_tail", "fault_bit_flip", "fault_byte_overwrite", "fault_read_error"],
         }
     }
 }
